@@ -336,6 +336,10 @@ func (conn *Conn) initialise() {
 	conn.in = make(chan *Line, 32)
 	conn.out = make(chan string, 32)
 	conn.die = nil
+	// What the previous server advertised and acknowledged says nothing
+	// about the next one.
+	conn.supportedCaps.Clear()
+	conn.currCaps.Clear()
 	if conn.st != nil {
 		conn.st.Wipe()
 	}
